@@ -449,7 +449,7 @@ func (g *Gen) Step() {
 		d := []time.Duration{2 * time.Hour, 26 * time.Hour, 8 * 24 * time.Hour}[r.Intn(3)]
 		w.Jump(d)
 	case "seek-time":
-		if s == nil || s.IsDLTarget {
+		if s == nil || w.isDLTarget(s) {
 			return
 		}
 		var t time.Time
@@ -465,7 +465,7 @@ func (g *Gen) Step() {
 		}
 		w.SeekTime(s.Name, t)
 	case "snapshot":
-		if s == nil || s.IsDLTarget {
+		if s == nil || w.isDLTarget(s) {
 			return
 		}
 		n := fmt.Sprintf("projects/p/snapshots/x%d", len(g.snapNames)%4)
@@ -479,7 +479,7 @@ func (g *Gen) Step() {
 		}
 		w.CreateSnapshot(n, s.Name)
 	case "seek-snapshot":
-		if s == nil || s.IsDLTarget {
+		if s == nil || w.isDLTarget(s) {
 			return
 		}
 		var own []string
@@ -537,6 +537,11 @@ func (g *Gen) Step() {
 			return
 		}
 		w.UpdateSub(s, "expiration_policy", r)
+	case "set-delay":
+		if s == nil {
+			return
+		}
+		w.SetDelay(s, []time.Duration{0, 50 * time.Millisecond, 3 * time.Second, time.Hour}[r.Intn(4)])
 	case "stream":
 		if s == nil {
 			return
